@@ -399,6 +399,12 @@ type RawContent []byte
 // don't distinguish between ordered and unordered objects in this code.
 func parseTagAndLength(bytes []byte, initOffset int) (ret tagAndLength, offset int, err error) {
 	offset = initOffset
+	// An explicitly tagged element whose content ends exactly at the end of
+	// the enclosing data leaves no byte to read here.
+	if offset >= len(bytes) {
+		err = SyntaxError{"truncated tag or length"}
+		return
+	}
 	b := bytes[offset]
 	offset++
 	ret.class = int(b >> 6)
